@@ -224,6 +224,15 @@ class RefServer:
         f = self.faults.get(verb)
         if f == "SILENT":
             return b""
+        if f == "LOST":
+            # the command is executed but its reply never reaches the client
+            del self.faults[verb]
+            self.commands.pop()
+            try:
+                self.handle(verb, args)
+            finally:
+                self.faults[verb] = "LOST"
+            return b""
         if f == "BYE":
             self.closed = True
             return self.st(b"BYE", None, b"going away")
